@@ -3,8 +3,8 @@ from vf import Query
 SRC = ["src/smpi/internals/smpi_shared.cpp"]
 META = {
     "bounds": "1..3 private blocks per buffer (quick: <=2; merge and pipeline: up to 3x3 / 2x2), every block bound, offset and message size a symbolic "
-              "size_t below 2^62 (blocks sorted, non-overlapping, non-empty); unwind 5; vector capacity 8",
-    "outside": "the mmap bookkeeping of smpi_shared_malloc, smpi_is_shared's map lookup, the memcpy loop of smpi_comm_copy_buffer_callback, send modes",
+              "size_t below 2^62 (blocks sorted, non-overlapping, non-empty); unwind 5; vector capacity 8; whole copy path (smpi_comm_copy_buffer_callback + smpi_is_shared + shift + merge + memcpy): two 8-byte allocations in the real metadata map, 1..2 symbolic private blocks each, message offsets concrete per query (0..3), size 1..4 and all bytes symbolic",
+    "outside": "the mmap bookkeeping of smpi_shared_malloc (the metadata map is filled by the harness), send modes (eager/detached/rendez-vous select which buffer reaches the callback), privatisation switches",
     "stubs": ["xbt logging -> silent", "abort() = violation"],
     "assumptions": ["private block lists are sorted, non-overlapping and non-empty, as smpi_shared_malloc_partial builds them"],
     "functions_filter": r"private_blocks",
@@ -23,4 +23,22 @@ def queries(tier):
         for nd in range(1, 3):
             qs.append(Query(f"pipeline_{nb}x{nd}", "C35/blocks.cpp", "harness_blocks", dict(P_MODE=2, P_NB=nb, P_ND=nd), SRC, unwind=nb + nd + 1, cap_s=600, ll2c_cap=4, memcap=4,
                             tiers=("quick", "thorough") if nb + nd <= 2 else ("thorough",)))
+    return qs
+
+
+_base_queries = queries
+
+
+def queries(tier):
+    qs = _base_queries(tier)
+    CB = ["src/smpi/internals/smpi_global.cpp"]
+    shapes = [(1, 1, 1, 1), (1, 0, 1, 1), (0, 1, 1, 1)] if tier == "quick" else [(1, 1, a, b) for a in (1, 2) for b in (1, 2)] + [(1, 0, 1, 1), (1, 0, 2, 1), (0, 1, 1, 1), (0, 1, 1, 2)]
+    offs = [(0, 0), (2, 0), (0, 3), (1, 2)] if tier == "quick" else [(a, b) for a in (0, 1, 2, 3) for b in (0, 1, 2, 3)]
+    for ssh, dsh, ns, nd in shapes:
+        for so, do in offs:
+            if tier == "quick" and (ssh, dsh, so, do) not in ((1, 1, 2, 0), (1, 1, 0, 3), (1, 0, 2, 0), (0, 1, 0, 3)):
+                continue
+            qs.append(Query(f"callback_s{'shared' if ssh else 'plain'}{ns}_d{'shared' if dsh else 'plain'}{nd}_off{so}_{do}", "C35/callback.cpp", "harness_callback",
+                            dict(P_SSH=ssh, P_DSH=dsh, P_NS=ns, P_ND=nd, ASZ=8, P_SO=so, P_DO=do), CB, unwind=10, cap_s=1200, mem_gb=16, ll2c_cap=4, memcap=8,
+                            prelude=["rbtree", "nostring"], no_pointer_overflow=True, nin=96))
     return qs
